@@ -16,6 +16,7 @@ import (
 func c04One(c *core.Ctx, cs srcCase) {
 	setBlock(&cs)
 	res := drive.Parse(cs.Src, parseVer(cs.Ver), true)
+	disturb()
 	if !res.OK() {
 		c.Stat("crashed_or_hung(C01 domain)", 1)
 		return
